@@ -71,7 +71,7 @@ static void* worker(void* p) {
             int expect = POLYSEED_OK;
             if (pv_randn(&r, 10) == 0) { m.features |= 4; expect = POLYSEED_ERR_UNSUPPORTED; c->unsupported_inputs++; }      /* user bit 4 is not enabled in this process: the seed is built, refused and released */
             bool refuse = pv_randn(&r, 12) == 0 && c->table_kind != 2;               /* the injected allocator (tables 0 and 1) refuses the next request */
-            if (refuse) { pv_w->fail_countdown = 1; c->refused_allocations++; }
+            if (refuse) { pv_w->fail_countdown = 1 + (long)pv_randn(&r, 3); c->refused_allocations++; }          /* the 1st, 2nd or 3rd request from now */
             if (op == OP_LOAD) { pv_m_image(&m, img); if (pv_randn(&r, 8) == 0) { img[pv_randn(&r, 32)] ^= 2; pristine = false; } st = polyseed_load(img, &S[sl]); }
             else {
                 char ph[2048]; pv_m_encode(&m, L, coin, ph, sizeof ph);
